@@ -1,4 +1,5 @@
 import BrushVerif.Model.Highlight
+import BrushVerif.Model.Tokenizer
 /-!
 Driver for C19: `C19 <cursor,cursor,…> <tree tokens…>` →
 `wf=<0|1> %| <cursor> <spans> <trap> %| …` with trap = `-` or the first off-boundary offset, spans `start-end-Kind,…` (`-` when empty).
@@ -6,6 +7,11 @@ Tree grammar (prefix, space separated), as printed by `harness/src/bin/c19.rs`:
   prog  := `P <esc line> F` | `P <esc line> T <n> tok*n`
   tok   := `O s e` | `W s e <esc w> <cls> N` | `W s e <esc w> <cls> Y <n> piece*n`
   piece := `L s e <Q|R|A|X>` | `D s e <n> piece*n` | `B s e prog` | `C s e prog`
+
+`C19 tok <extglob 0|1><sh_mode 0|1> <esc line>` → the tokenizer model's answer in the canonical form of the harness's
+`K` request, then ` %| ` and one ghost `exact` flag per token:
+  `ok <tok>*` with tok = `<W|O>:<start>:<end>:<sline>.<scol>:<eline>.<ecol>:<esc text>` | `err:escape` |
+  `err:single:<index>:<line>.<col>` | `err:double:…` | `unsupported` | `panic`
 -/
 namespace BrushVerif.Drv.C19
 open BrushVerif.Wire BrushVerif.Highlight
@@ -85,8 +91,25 @@ end
 
 def cursors (s : Str) : List Nat := (splitOnChar ',' s).filterMap parseNat?
 
+def showPos (p : Tokenizer.Pos) : Str := natToStr p.line ++ ['.'] ++ natToStr p.col
+
+def showTok (t : Tokenizer.Token) : Str :=
+  (match t.kind with | .word => ['W'] | .op => ['O']) ++ [':'] ++ natToStr t.start.index ++ [':'] ++
+    natToStr t.stop.index ++ [':'] ++ showPos t.start ++ [':'] ++ showPos t.stop ++ [':'] ++ esc t.text
+
+def showRes : Tokenizer.Res → Str
+  | .ok ts => joinWith [' '] ("ok".toList :: ts.map showTok) ++ " %| ".toList ++
+      (if ts.isEmpty then ['-'] else ts.map (fun t => if t.exact then '1' else '0'))
+  | .err .unterminatedEscape => "err:escape".toList
+  | .err (.unterminatedSingleQuote p) => "err:single:".toList ++ natToStr p.index ++ [':'] ++ showPos p
+  | .err (.unterminatedDoubleQuote p) => "err:double:".toList ++ natToStr p.index ++ [':'] ++ showPos p
+  | .unsupported => "unsupported".toList
+  | .panic => "panic".toList
+
 def handle (toks : List Str) : Str :=
   match toks with
+  | ['t', 'o', 'k'] :: [e, s] :: l :: [] =>
+    showRes (Tokenizer.tokenize ⟨e == '1', s == '1'⟩ (unesc l))
   | cs :: tree =>
     match pProg (tree.length + 1) tree with
     | some (p, []) =>
